@@ -679,6 +679,10 @@ class TBRMatchedMarkets:
         design_diag = TBRMMDiagnostics(
             self.data.aggregate_time_series(group_star_trt[k]), self.parameters)
         design_diag.x = self.data.aggregate_time_series(group_star_ctl[k])
+        req_budget = design_diag.required_impact / self.parameters.iroas
+        if (budget_range is not None) and (self._constraint_not_satisfied(
+            req_budget, budget_range[0], budget_range[1])):
+          continue
         design_score = TBRMMScore(design_diag)
         design = TBRMMDesign(
             design_score, group_star_trt[k], group_star_ctl[k],
